@@ -19,6 +19,9 @@ CLAIMED = {
  "C18": ("error-disposition dataflow on output sinks (WE-1), must-pass-through typestate with interprocedural summaries (WE-2), writer registration typestate (WE-3), drain parity (W-1)",
          "Decides that every Write/Flush/Close on the output path has its error consumed (fatal, returned or merged into a returned error) on all writers and in Wfile, that every main waits for every writer it may have started, and that writer goroutines unregister after their last write. Does not decide that the OS reports the failure.",
          "DESIGN.md §4 C18"),
+ "C17": ("three-valued evaluation of error comparisons (RE-1), read-error disposition dataflow (RE-2), clang-AST guard rule on the C kseq wrapper + Go caller (K)",
+         "Decides which error values the input path treats as a normal end of input: io.ErrUnexpectedEOF is never benign, every read error on the stream is fatal/propagated or restricted to io.EOF, and the C reader consults zlib before reporting 'finished'. Does not decide that each decompressor detects every corruption.",
+         "DESIGN.md §4 C17"),
 }
 NA = {
  "C08": "every clause is an arithmetic identity over DP cells and read contents; no clause is visible in the shape of the code (DESIGN.md §5)",
